@@ -723,6 +723,31 @@ impl Array {
     }
 }
 
+#[cfg(corgi_verif)]
+impl Array {
+    /// Verification probe (only built with `--cfg corgi_verif`): a read-only view of the bookkeeping cells:
+    /// (is_tracked, keep_gradient, consumer_count, delta present, gradient present, strong count of the
+    /// values, (is_tracked, keep_gradient) of every recorded child).
+    #[allow(clippy::type_complexity)]
+    pub fn verif_probe(&self) -> (bool, bool, usize, bool, bool, usize, Vec<(bool, bool)>) {
+        let delta = self.delta.take();
+        let has_delta = delta.is_some();
+        self.delta.set(delta);
+        (
+            self.is_tracked.get(),
+            self.keep_gradient.get(),
+            self.consumer_count.get(),
+            has_delta,
+            self.gradient.borrow().is_some(),
+            Rc::strong_count(&self.values),
+            self.children
+                .iter()
+                .map(|c| (c.is_tracked.get(), c.keep_gradient.get()))
+                .collect(),
+        )
+    }
+}
+
 impl Clone for Array {
     fn clone(&self) -> Array {
         let backward_op = self.backward_op.as_ref().map(|x| Rc::clone(x));
